@@ -381,10 +381,13 @@ def run_bs_case(chk, case):
     L, ns = case["L"], case["ns"]
     d = {"k": "bs", "L": L, "r": case["r"]}
     rf = r_float(d)
-    req = {"op": "bs", "L": L, "r": core.rat(rf), "ns": ns}
+    minp = None if case.get("minp") is None else Fraction(*float(Fraction(*case["minp"])).as_integer_ratio())
+    req = {"op": "bs", "L": L, "r": core.rat(rf), "ns": ns, "minp": MINP if minp is None else core.rat(minp)}
     if case.get("occ") is not None:
         req["occ"] = case["occ"]
     rep = chk.lean.ask(req)
+    if minp is not None:
+        return run_bs_minp_case(chk, case, rep, d, rf, float(minp), minp)
     try:
         inst = BSLayeredPPNR(L, rf)
     except AssertionError:
@@ -443,6 +446,40 @@ def run_bs_case(chk, case):
     return None
 
 
+def run_bs_minp_case(chk, case, rep, d, rf, minp_f, minp):
+    """BSLayeredPPNR.detect with global_params['min_p'] changed: the backend's prob_distribution() is built with `add`, so
+    a leaf state whose probability is not above min_p is dropped before the click counts are summed (model bsDetectP);
+    proved bound kernel_wt_dev: law - (number of leaf states)*min_p <= entry <= law"""
+    from perceval.components import BSLayeredPPNR
+    L, ns = case["L"], case["ns"]
+    if "err" in rep:
+        return ("broken", "model-vs-code", f"model rejects BSLayeredPPNR({L}, {rf}) ({rep['err']})", case)
+    with MinP(minp_f):
+        inst = BSLayeredPPNR(L, rf)
+        hist = [py_out(inst.detect(n)) for n in ns]
+    chk.branch("bs-minp-changed")
+    for i, n in enumerate(ns):
+        got = hist[i]
+        spec = spec_tree(L, r_exact(d), n)
+        S = comb(n + 2 ** L - 1, n)
+        gd = {got["state"]: 1.0} if "state" in got else got["dist"]
+        for k in set(spec) | set(gd):
+            ex, x = float(spec.get(k, 0)), gd.get(k, 0.0)
+            if not (ex - float(S * minp) - 1e-9 <= x <= ex + 1e-9):
+                return ("violation", "bs-tree-minp-bound",
+                        f"BSLayeredPPNR({L}, {rf}).detect({n}) at min_p={minp_f!r}: entry {k} = {x!r} outside the proved "
+                        f"interval [{ex - float(S * minp)!r}, {ex!r}]", dict(case, ns=ns[:i + 1]))
+        why = cmp_out(got, lean_out(rep["hist"][i]))
+        if why is not None:
+            return ("broken", "model-vs-code", f"BSLayeredPPNR({L}, {rf}).detect({n}) at min_p={minp_f!r} vs model: {why}",
+                    dict(case, ns=ns[:i + 1]))
+        if n >= 2 and "dist" in got and abs(sum(gd.values()) - 1.0) > 1e-6:
+            chk.branch("bs-minp-leaf-dropped")
+        chk.case(("bs-minp", L, tuple(case["r"]), n, tuple(case["minp"])), nontrivial=n >= 2,
+                 sample={"detector": f"BSLayeredPPNR({L},{rf})", "n": n, "min_p": case["minp"], "result": got})
+    return None
+
+
 def bs_cases(chk):
     rng = chk.rng
     Lmax = 3
@@ -457,6 +494,11 @@ def bs_cases(chk):
             cases.append({"L": L, "r": list(r), "ns": ns, "occ": rng.choice([2, 3]) if L <= 2 or chk.thorough else None})
     for L, r in [(0, (1, 2)), (1, (-1, 5)), (1, (11, 10))]:
         cases.append({"L": L, "r": list(r), "ns": [2]})
+    # changed min_p: the backend drops leaf states
+    for _ in range(chk.pick(10, 60)):
+        L = rng.randint(1, 2)
+        cases.append({"L": L, "r": list(rng.choice(BS_RS[:7])), "ns": rng.sample([0, 1, 2, 3, 4], 3),
+                      "minp": [rng.randint(1000, 9999), 10000 * 10 ** rng.choice([0, 0, 1, 1, 2, 4])]})
     return cases
 
 
@@ -1676,6 +1718,831 @@ def procsample_cases(chk):
     return out
 
 # ------------------------------------------------------------------------------------------------
+# I. prob_threshold > 0 and min_p > 0: simulate_detectors(dist, dets, min_photons, prob_threshold) and
+#    simulate_detectors_sample with global_params['min_p'] changed (model: Model/C08Thr.lean, op `sim` with `thr`;
+#    theorems simulate_detectors_threshold_bound / _normalised, simulate_detectors_phys_minp / _normalised_minp,
+#    sample_law_is_kernel_product_minp, sample_restarts_after_empty_kernel)
+# ------------------------------------------------------------------------------------------------
+SHIPPED_MINP = Fraction(*(1e-16).as_integer_ratio())
+
+
+class MinP:
+    """`global_params['min_p'] = value` for the duration of the block (None: leave the shipped value)"""
+
+    def __init__(self, value):
+        self.value = value
+
+    def __enter__(self):
+        from perceval.utils import global_params
+        self.gp, self.old = global_params, global_params["min_p"]
+        if self.value is not None:
+            global_params["min_p"] = self.value
+        return self
+
+    def __exit__(self, *exc):
+        self.gp["min_p"] = self.old
+        return False
+
+
+def fr(q):
+    """[num, den] -> the exact rational of the float the implementation receives"""
+    return Fraction(*float(Fraction(q[0], q[1])).as_integer_ratio())
+
+
+class Margin:
+    """smallest relative distance |a - b| / max(|a|, |b|) over the order comparisons made by the as-is oracle
+    (comparisons against an exact 0 are not counted: they are decided the same way in floats)"""
+
+    def __init__(self):
+        self.m = 1.0
+
+    def cmp(self, a, b):
+        if b != 0 and a != 0:
+            self.m = min(self.m, float(abs(a - b) / max(abs(a), abs(b))))
+
+
+def asis_kernel(d, n, minp, mg):
+    """the per-mode dictionary exactly as the code builds it at min_p: [(reading, Fraction)]"""
+    if d is None or d["k"] == "pnr":
+        return [(n, Fraction(1))]
+    if d["k"] == "thr":
+        return [(min(n, 1), Fraction(1))]
+    if d["k"] == "bs":
+        if n < 2:
+            return [(n, Fraction(1))]
+        L, r = d["L"], r_exact(d)
+        out = {}
+        for t, q in multinomial_law([leaf_weight(L, k, r) for k in range(2 ** L)], n).items():
+            mg.cmp(q, minp)
+            if q > minp:                      # SLOSBackend.prob_distribution(): bsd.add(output_state, probability)
+                c = sum(1 for x in t if x)
+                out[c] = out.get(c, Fraction(0)) + q
+        return sorted(out.items())
+    w = d["w"]
+    if n < 2:
+        return [(n, Fraction(1))]
+    if w == 1:
+        return [(1, Fraction(1))]
+    mx = w if d.get("max") is None else min(d["max"], w)
+    cap = min(mx, n)
+    out, rem = [], Fraction(1)
+    for i in range(1, cap):
+        p_i = closed(w, i, n)
+        rem -= p_i
+        mg.cmp(p_i, minp)
+        if p_i > minp:
+            out.append((i, p_i))
+    mg.cmp(rem, minp)
+    if rem > minp:
+        out.append((cap, rem))
+    return out
+
+
+def asis_tensor(kernels, T, mg):
+    """BSDistribution.list_tensor_product(kernels, prob_threshold=T) on one-mode factors"""
+    if not kernels:
+        return {}
+    if len(kernels) == 1:
+        return {(k,): v for k, v in kernels[0]}
+    if any(not k for k in kernels):
+        return {}
+    trimmed = []
+    for k in kernels:
+        kk = []
+        for r, v in k:
+            mg.cmp(v, T)
+            if v > T:
+                kk.append((r, v))
+        trimmed.append(kk)
+    res = {}
+
+    def inner(i, cur, q):
+        if i == len(trimmed):
+            res[cur] = res.get(cur, Fraction(0)) + q
+            return
+        for r, v in trimmed[i]:
+            x = q * v
+            mg.cmp(x, T)
+            if x < T:
+                continue
+            inner(i + 1, cur + (r,), x)
+    inner(0, (), Fraction(1))
+    return res
+
+
+def asis_simulate(dist, dets, minph, T, minp):
+    """simulate_detectors as coded, in exact arithmetic -> (un-normalised result, phys_perf, margin, flags)"""
+    mg = Margin()
+    flags = set()
+    ty = spec_detection_type(dets)
+    if not dist or ty == "PNR":
+        return dict(dist), Fraction(1), mg.m, flags
+    raw, perf = {}, Fraction(1)
+    if ty == "Threshold":
+        for s, p in dist:
+            t = tuple(min(x, 1) for x in s)
+            if minph is not None and sum(t) < minph:
+                perf -= p
+            else:
+                raw[t] = raw.get(t, Fraction(0)) + p
+        return raw, perf, mg.m, flags
+    for s, p in dist:
+        kernels = [asis_kernel(d, n, minp, mg) for d, n in zip(dets, s)]
+        full = 1
+        for d, n in zip(dets, s):
+            full *= len(spec_detector(d, n))
+        teff = max(T, T / (10 * p)) if p > 0 else T
+        sd = asis_tensor(kernels, teff, mg)
+        sd0 = asis_tensor(kernels, Fraction(0), Margin())
+        if len(sd) < len(sd0):
+            flags.add("thr-dropped")
+        if len(sd0) < full:
+            flags.add("minp-kernel-dropped")
+        for t, q in sd.items():
+            if minph is not None and sum(t) < minph:
+                perf -= p * q
+            else:
+                mg.cmp(p * q, minp)
+                if p * q > minp:
+                    raw[t] = raw.get(t, Fraction(0)) + p * q
+                else:
+                    flags.add("minp-add-dropped")
+    return raw, perf, mg.m, flags
+
+
+def exact_simulate_raw(dist, dets, minph):
+    """the property's exact law, un-normalised -> (raw, phys_perf)"""
+    raw, perf = {}, Fraction(1)
+    for s, p in dist:
+        kernels = [sorted(spec_detector(d, n).items()) for d, n in zip(dets, s)]
+        for combo in itertools.product(*kernels):
+            t = tuple(k for k, _ in combo)
+            q = p
+            for _, x in combo:
+                q *= x
+            if minph is not None and sum(t) < minph:
+                perf -= q
+            else:
+                raw[t] = raw.get(t, Fraction(0)) + q
+    return raw, perf
+
+
+def python_slacks(dist, dets, T, minp):
+    """upper estimates of physSlack / massSlack / pointSlack (Lemmas/C08Thr.lean) computed without Lean: the number of
+    output states of an input state is bounded by the size of its exact kernel product"""
+    ps = ms = pt = Fraction(0)
+    for s, p in dist:
+        N = 1
+        for d, n in zip(dets, s):
+            N *= len(spec_detector(d, n))
+        kc = sum(add_count(d, n) for d, n in zip(dets, s))
+        term = minp * p * kc + N * T * (p + Fraction(1, 10))
+        ps += term
+        ms += term + minp * N
+        pt += minp * (kc * p + 1) + T * (p + Fraction(1, 10))
+    return ps, ms, pt
+
+
+def add_count(d, n):
+    """AnyDet.addCount: `add` calls behind the per-mode result (Detector loop: <= n; tree: one per leaf state)"""
+    if d is None or d["k"] in ("pnr",):
+        return 0
+    if d["k"] == "thr" or d["k"] == "ppnr":
+        return n
+    return comb(n + 2 ** d["L"] - 1, n)
+
+
+def simthr_observe(case):
+    from perceval.simulators._simulate_detectors import simulate_detectors
+    from perceval.utils import BSDistribution, BasicState
+    T = float(fr(case["thr"]))
+    minp = None if case.get("minp") is None else float(fr(case["minp"]))
+    with MinP(minp):
+        bsd = BSDistribution()
+        for s, p in case["dist"]:
+            bsd[BasicState(s)] = float(Fraction(p[0], p[1]))
+        dets = [build_det(d) for d in case["dets"]]     # fresh: a detector's _cache depends on min_p
+        if case.get("share"):
+            first = {}
+            for i, d in enumerate(case["dets"]):
+                key = json.dumps(d, sort_keys=True)
+                if d is not None and key in first:
+                    dets[i] = dets[first[key]]
+                else:
+                    first[key] = i
+        if case.get("positional"):
+            res, perf = simulate_detectors(bsd, dets, case["minph"], T)
+        else:
+            res, perf = simulate_detectors(bsd, dets, case["minph"], prob_threshold=T)
+    return {tuple(s): float(p) for s, p in res.items()}, float(perf)
+
+
+def judge_simthr(chk, case, count=False):
+    """simulate_detectors at a non-zero prob_threshold and/or a changed min_p: (1) the PROVED bounds around the exact law,
+    evaluated on the real outputs with slacks computed in Python; (2) exact comparison with the model at the same
+    (min_p, T); (3) the as-is Python oracle tells whether a float comparison was too close to call"""
+    dist = sim_exact_dist(case)
+    dets, minph = case["dets"], case["minph"]
+    T = fr(case["thr"])
+    minp = SHIPPED_MINP if case.get("minp") is None else fr(case["minp"])
+    a_raw, a_perf, margin, flags = asis_simulate(dist, dets, minph, T, minp)
+    if margin < 1e-9 and not case.get("dyadic"):
+        if count:
+            chk.count("simthr", "ambiguous-skipped")
+        return None
+    try:
+        got, perf = simthr_observe(case)
+    except Exception as e:
+        return ("violation", "simulate-threshold-raises",
+                f"simulate_detectors(prob_threshold={float(T)!r}, min_p={float(minp)!r}) raised {type(e).__name__}: {e}", case)
+    ty = spec_detection_type(dets)
+    label = f"simulate_detectors(dets={[det_label(d) for d in dets]}, min_photons={minph}, prob_threshold={float(T)!r}) " \
+            f"at min_p={float(minp)!r}"
+    # (1) the proved bounds (every branch); exact law E, retained mass M_E, phys_E
+    if dist and ty != "PNR":
+        e_raw, e_perf = exact_simulate_raw(dist, dets, minph)
+        M_E = sum(e_raw.values())
+        ps, ms, pt = python_slacks(dist, dets, T, minp)
+        if ty == "Threshold":
+            ps = ms = pt = Fraction(0)
+        tol = 1e-9
+        if not (float(e_perf) - tol <= perf <= float(e_perf + ps) + tol):
+            return ("violation", "threshold-phys-perf-bound",
+                    f"{label}: phys_perf {perf!r} outside the proved interval [{float(e_perf)!r}, {float(e_perf + ps)!r}]", case)
+        if M_E > 0 and ms < M_E:
+            if count:
+                chk.branch("thr-bound-checked")
+                if ms > 0 and float(ms / (M_E - ms)) < 0.05:
+                    chk.branch("thr-bound-tight")
+            lo_s, hi_s = float(pt / M_E), float(ms / (M_E - ms))
+            for t in set(e_raw) | set(got):
+                ex = float(e_raw.get(t, Fraction(0)) / M_E)
+                x = got.get(t, 0.0)
+                if not (ex - lo_s - tol <= x <= ex + hi_s + tol):
+                    return ("violation", "threshold-result-bound",
+                            f"{label}: result[{list(t)}] = {x!r} outside the proved interval "
+                            f"[{ex - lo_s!r}, {ex + hi_s!r}] around the exact law", case)
+        if count and T > 0 and ty == "Threshold":
+            chk.branch("thr-uniform-ignored")
+    # (2) the model at the same (min_p, T)
+    req = sim_lean_req(case)
+    req["minp"], req["thr"] = core.rat(minp), core.rat(T)
+    rep = chk.lean.ask(req)
+    if "err" in rep:
+        return ("broken", "model-vs-code", f"{label}: model rejects the case: {rep}", case)
+    m_dist = {tuple(s): Fraction(p) for s, p in rep["dist"]}
+    why = cmp_dist(got, m_dist)
+    if why is None and not core.close(perf, float(Fraction(rep["perf"])), TOL):
+        why = f"physical perf {perf!r}, model {float(Fraction(rep['perf']))!r}"
+    if why is not None:
+        # independent as-is oracle: does the real result match the code's algorithm evaluated exactly?
+        tot = sum(a_raw.values())
+        a_norm = {k: v / tot for k, v in a_raw.items()} if tot else dict(a_raw)
+        asis_ok = cmp_dist(got, a_norm) is None and core.close(perf, float(a_perf), TOL)
+        return ("broken", "model-vs-code" if not asis_ok else "model-vs-asis-oracle",
+                f"{label} vs model (Model/C08Thr.lean): {why}", case)
+    # model slacks are never above the Python estimates (same formula, fewer states)
+    if dist and ty not in ("PNR", "Threshold"):
+        ps, ms, pt = python_slacks(dist, dets, T, minp)
+        if Fraction(rep["pslack"]) > ps or Fraction(rep["mslack"]) > ms or Fraction(rep["ptslack"]) != pt:
+            return ("broken", "model-internal", f"{label}: slack of the model exceeds the Python estimate", case)
+    if count:
+        for f in flags:
+            chk.branch(f)
+        if len(dets) == 1 and T > 0 and ty not in ("PNR", "Threshold"):
+            chk.branch("thr-one-mode-untouched")
+        if case.get("minp") is not None:
+            chk.branch("minp-changed")
+        if case.get("dyadic"):
+            chk.branch("thr-exact-tie")
+    return None
+
+
+def shrink_simthr(chk, case, sig):
+    def fails(c):
+        try:
+            r = judge_simthr(chk, c)
+        except Exception:
+            return False
+        return r is not None and r[1] == sig
+    cur = copy.deepcopy(case)
+    budget, changed = 40, True
+    while changed and budget > 0:
+        changed = False
+        for i in range(len(cur["dist"])):
+            if len(cur["dist"]) <= 1:
+                break
+            cand = copy.deepcopy(cur)
+            del cand["dist"][i]
+            budget -= 1
+            if fails(cand):
+                cur, changed = cand, True
+                break
+        if changed:
+            continue
+        for i, d in enumerate(cur["dets"]):
+            if d is not None:
+                cand = copy.deepcopy(cur)
+                cand["dets"][i] = None
+                budget -= 1
+                if fails(cand):
+                    cur, changed = cand, True
+                    break
+        if changed:
+            continue
+        if cur["minph"] is not None:
+            cand = copy.deepcopy(cur)
+            cand["minph"] = None
+            budget -= 1
+            if fails(cand):
+                cur, changed = cand, True
+    return cur
+
+
+def run_simthr_case(chk, case):
+    kinds = tuple(det_label(d) for d in case["dets"])
+    chk.count("threshold_decade", "0" if case["thr"][0] == 0 else str(len(str(case["thr"][1] // max(1, case["thr"][0])))))
+    chk.case(("simthr", kinds, tuple(tuple(s) for s, _ in case["dist"]), str(case["minph"]), tuple(case["thr"]),
+              tuple(case["minp"]) if case.get("minp") else None),
+             nontrivial=spec_detection_type(case["dets"]) not in ("PNR", "Threshold") and case["thr"][0] > 0,
+             sample={"dets": kinds, "dist": case["dist"][:3], "min_photons": case["minph"],
+                     "prob_threshold": case["thr"], "min_p": case.get("minp")})
+    r = judge_simthr(chk, case, count=True)
+    if r is not None:
+        return (r[0], r[1], r[2], shrink_simthr(chk, case, r[1]))
+    return None
+
+
+def log_fraction(rng, lo_exp, hi_exp):
+    """a 'random' rational of magnitude 10^-hi_exp .. 10^-lo_exp, [num, den]"""
+    e = rng.randint(lo_exp, hi_exp)
+    return [rng.randint(1000, 9999), 1000 * 10 ** e]
+
+
+def simthr_cases(chk):
+    rng = chk.rng
+    out = []
+    P2 = {"k": "ppnr", "w": 2, "max": None}
+    # exact ties (dyadic numbers: the float operations are exact): a running product EQUAL to the threshold is kept,
+    # a factor entry EQUAL to the threshold is trimmed; min_p equal to an entry drops it
+    for thr in ([1, 4], [1, 2], [1, 8], [3, 16]):
+        out.append({"dist": [[[2, 2], [1, 2]], [[1, 1], [1, 2]]], "dets": [P2, P2], "minph": None, "thr": thr, "dyadic": True})
+        out.append({"dist": [[[2, 2, 2], [1, 2]], [[1, 0, 1], [1, 2]]], "dets": [P2, {"k": "bs", "L": 1, "r": [1, 2]}, P2],
+                    "minph": 1, "thr": thr, "dyadic": True})
+    out.append({"dist": [[[1, 2, 1], [1, 1]]], "dets": [None, P2, None], "minph": None, "thr": [0, 1], "minp": [1, 2],
+                "dyadic": True})
+    out.append({"dist": [[[2, 2], [1, 2]], [[0, 2], [1, 2]]], "dets": [P2, {"k": "ppnr", "w": 4, "max": None}], "minph": None,
+                "thr": [0, 1], "minp": [1, 4], "dyadic": True})
+    # one mode: the threshold is never applied; uniform lists never read it
+    for _ in range(chk.pick(4, 20)):
+        d = gen_det(rng, rng.choice(["interleaved", "bs"]))
+        out.append({"dist": gen_dist(rng, 1, 4), "dets": [d], "minph": rng.choice([None, 1]), "thr": [rng.randint(1, 9), 10]})
+        m = rng.randint(1, 3)
+        out.append({"dist": gen_dist(rng, m, 3), "dets": [{"k": "thr"}] * m, "minph": rng.choice([None, 1, 2]),
+                    "thr": log_fraction(rng, 0, 2)})
+    # random general-branch cases over the decades of the threshold, some with a changed min_p
+    for i in range(chk.pick(70, 600)):
+        m = rng.randint(2, 3 if i % 3 else 4)
+        kinds = [rng.choice(KINDS) for _ in range(m)]
+        if all(k in ("none", "pnr") for k in kinds) or len(set(kinds)) == 1 and kinds[0] == "thr":
+            kinds[rng.randrange(m)] = rng.choice(["interleaved", "bs"])
+        dets = [gen_det(rng, k) for k in kinds]
+        dist = gen_dist(rng, m, rng.randint(2, chk.pick(4, 5)), normalised=rng.random() < 0.8)
+        top = max(sum(s) for s, _ in dist)
+        case = {"dist": dist, "dets": dets, "minph": rng.choice([None] + list(range(0, top + 1))),
+                "thr": rng.choice([[0, 1]] + [log_fraction(rng, 0, 1)] * 3 + [log_fraction(rng, 2, 4)] * 3 + [log_fraction(rng, 5, 12)]),
+                "share": rng.random() < 0.3, "positional": rng.random() < 0.5}
+        if i % 4 == 0:
+            case["minp"] = rng.choice([log_fraction(rng, 0, 1), log_fraction(rng, 2, 4), log_fraction(rng, 5, 9)])
+        out.append(case)
+    return out
+
+
+def asis_sample_law(state, dets, minp):
+    """the distribution simulate_detectors_sample draws from, as coded (pairwise tensor_product with its
+    'empty left factor returns the right factor' rule) -> (dict state -> Fraction, had an empty kernel?)"""
+    mg = Margin()
+    ty = spec_detection_type(dets)
+    if ty == "PNR":
+        return {tuple(state): Fraction(1)}, False, mg.m
+    if ty == "Threshold":
+        return {tuple(min(x, 1) for x in state): Fraction(1)}, False, mg.m
+    acc, quirk = {}, False
+    for n, d in zip(state, dets):
+        k = asis_kernel(d, n, minp, mg)
+        b = {(r,): v for r, v in k}
+        if not k:
+            quirk = True
+        if not acc:
+            acc = b
+        else:
+            new = {}
+            for x, px in acc.items():
+                for y, py in b.items():
+                    new[x + y] = new.get(x + y, Fraction(0)) + px * py
+            acc = new
+    return acc, quirk, mg.m
+
+
+def run_sampleminp_case(chk, case):
+    """simulate_detectors_sample with global_params['min_p'] changed: the law is the kernel product at that min_p as long
+    as no per-mode result is an empty dictionary (sample_law_is_kernel_product_minp); otherwise the product restarts after
+    the last empty result (sample_restarts_after_empty_kernel) — a characterised quirk, not reported"""
+    import perceval as pcvl
+    from perceval.simulators._simulate_detectors import simulate_detectors_sample
+    from perceval.utils import BasicState
+    s, dets = case["state"], case["dets"]
+    minp = fr(case["minp"])
+    kinds = tuple(det_label(d) for d in dets)
+    law, quirk, margin = asis_sample_law(s, dets, minp)
+    if margin < 1e-9 and not case.get("dyadic"):
+        chk.count("sampleminp", "ambiguous-skipped")
+        return None
+    chk.case(("sampleminp", kinds, tuple(s), tuple(case["minp"])), nontrivial=max(s, default=0) >= 2,
+             sample={"sample": list(s), "dets": kinds, "min_p": case["minp"]})
+    rep = chk.lean.ask({"op": "sample", "state": list(s), "dets": [lean_det(d) for d in dets], "minp": core.rat(minp),
+                        "fixed": True})
+    if "err" in rep:
+        return ("broken", "model-vs-code", f"model rejects the sample case: {rep}", case)
+    m_law = {}
+    for t, q in rep["dist"]:
+        m_law[tuple(t)] = m_law.get(tuple(t), Fraction(0)) + Fraction(q)
+    if {k: v for k, v in m_law.items() if v} != {k: v for k, v in law.items() if v}:
+        return ("broken", "model-vs-asis-oracle", f"sample law of the model {m_law} vs as-is oracle {law}", case)
+    label = f"simulate_detectors_sample({list(s)}, {list(kinds)}) at min_p={float(minp)!r}"
+    pcvl.random_seed(case["seed"])
+    outs, err = [], None
+    with MinP(float(minp)):
+        objs = [build_det(d) for d in dets]
+        try:
+            for _ in range(case["reps"]):
+                outs.append(tuple(simulate_detectors_sample(BasicState(s), objs)))
+        except Exception as e:
+            err = type(e).__name__
+    tot = sum(law.values())
+    if quirk:
+        chk.branch("sample-minp-empty-kernel")
+        if not tot:
+            chk.branch("sample-minp-nothing-left")
+    else:
+        chk.branch("sample-minp-guard-holds")
+    if not tot:
+        if err != "RuntimeError":
+            return ("broken", "sample-minp-law", f"{label}: nothing to draw from, the code returned {outs[:1]} / raised {err}", case)
+        return None
+    if err is not None:
+        return ("violation" if not quirk else "broken", "sample-raises" if not quirk else "sample-minp-law",
+                f"{label} raised {err}", case)
+    support = {t for t, q in law.items() if q > 0}
+    spec, _ = spec_simulate([(tuple(s), Fraction(1))], dets, None)
+    for o in outs:
+        if not quirk and (o not in spec or spec[o] <= 0):
+            return ("violation", "sample-outside-support",
+                    f"{label} returned {list(o)}, which has probability 0 under the mode-wise detector kernels", case)
+        if o not in support:
+            return ("broken", "sample-minp-law", f"{label} returned {list(o)}, not in the support {sorted(support)} of the "
+                    f"model's law", case)
+    n = len(outs)
+    if n >= 100:
+        chk.branch("sample-minp-frequency-test")
+        for t, q in law.items():
+            q = float(q / tot)
+            f = outs.count(t) / n
+            if abs(f - q) > 6 * (q * (1 - q) / n) ** 0.5 + 4.0 / n:
+                return ("violation" if not quirk else "broken", "sample-frequencies" if not quirk else "sample-minp-law",
+                        f"{label}: {list(t)} drawn with frequency {f:.3f} over {n} draws, law {q:.3f} (6-sigma statistical test)",
+                        case)
+    return None
+
+
+def sampleminp_cases(chk):
+    rng = chk.rng
+    P2 = {"k": "ppnr", "w": 2, "max": None}
+    out = [{"state": [1, 2, 1], "dets": [None, P2, None], "minp": [1, 2], "reps": 5, "seed": 1, "dyadic": True},
+           {"state": [1, 2], "dets": [None, P2], "minp": [1, 2], "reps": 3, "seed": 2, "dyadic": True},
+           {"state": [2, 2, 3], "dets": [P2, {"k": "thr"}, {"k": "ppnr", "w": 4, "max": None}], "minp": [1, 2], "reps": 200,
+            "seed": 3, "dyadic": True}]
+    for i in range(chk.pick(40, 300)):
+        m = rng.randint(2, 4)
+        kinds = [rng.choice(["none", "thr", "interleaved", "interleaved", "bs"]) for _ in range(m)]
+        kinds[rng.randrange(m)] = "interleaved"
+        dets = [gen_det(rng, k) for k in kinds]
+        s = [rng.choice([0, 1, 2, 2, 3, 4]) for _ in range(m)]
+        minp = rng.choice([log_fraction(rng, 0, 0)] * 3 + [[rng.randint(20, 60), 100]] * 2 + [log_fraction(rng, 1, 3), log_fraction(rng, 4, 12)])
+        out.append({"state": s, "dets": dets, "minp": minp, "reps": 200 if i % 5 == 0 else 6, "seed": rng.randrange(1 << 30)})
+    return out
+
+
+# ------------------------------------------------------------------------------------------------
+# J. mixed inputs through the detector path: Simulator.probs_svd(SVDistribution of several Fock members, detectors) and
+#    Processor.probs() with a lossy source (model: Model/C08Mix.lean `probsSvdMix`, op `probsmix`; theorems
+#    probs_svd_mix_law, mix_is_weighted_sum, simulate_phys_linear)
+# ------------------------------------------------------------------------------------------------
+def backend_dist(circ, state):
+    """theoretical distribution of the backend for one Fock input (exact rationals of the floats)"""
+    from perceval.backends import SLOSBackend
+    from perceval.utils import BasicState
+    b = SLOSBackend()
+    b.set_circuit(build_circuit(circ))
+    b.set_input_state(BasicState(state))
+    return [(tuple(s), Fraction(*float(q).as_integer_ratio())) for s, q in b.prob_distribution().items()]
+
+
+def spec_mix(members, dets, minph, heralds, ps, m):
+    """The property for a mixed input, exactly: every member passing the input filter contributes, with its weight, the
+    detector kernels applied mode-wise to ITS theoretical distribution, then the photon filter, the heralds and the
+    post-selection on the readings.  -> (result without heralded modes, accepted mass = physical*logical, physical_perf)"""
+    F = minph + sum(v for _, v in heralds)
+    hm = sorted(k for k, _ in heralds)
+    is_pnr = spec_detection_type(dets or []) == "PNR"
+    total, W, ret = {}, Fraction(0), Fraction(0)
+    pre = Fraction(1)
+    for p, n, base in members:
+        if n < F:
+            pre -= p
+            continue
+        if p <= 0:
+            continue
+        W += p
+        if is_pnr:
+            raw, perf = dict(base), Fraction(1)
+        else:
+            raw, perf = exact_simulate_raw(base, dets, F)
+        ret += p * sum(raw.values())
+        for t, q in raw.items():
+            if all(t[k] == v for k, v in heralds) and ps_ok(ps, t):
+                key = tuple(x for i, x in enumerate(t) if i not in hm)
+                total[key] = total.get(key, Fraction(0)) + p * q
+    acc = sum(total.values())
+    res = {k: v / acc for k, v in total.items()} if acc else {}
+    phys = pre if is_pnr else (pre * ret / W if W else pre)
+    return res, acc, phys
+
+
+def mix_setup(case):
+    """-> members [(p exact, n, base)], floats"""
+    members = []
+    for st, w in case["members"]:
+        p = Fraction(*float(Fraction(w[0], w[1])).as_integer_ratio())
+        members.append((p, sum(st), backend_dist(case["circ"], st)))
+    return members
+
+
+def judge_mix(chk, case, count=False):
+    from perceval.simulators import Simulator
+    from perceval.backends import SLOSBackend
+    from perceval.utils import BasicState, SVDistribution, PostSelect
+    import perceval as pcvl
+    m = case["circ"]["m"]
+    heralds = [tuple(h) for h in case["heralds"]]
+    ps = case.get("ps")
+    dets = case["dets"]
+    rel = float(Fraction(*case["rel"]))
+    members = mix_setup(case)
+    kinds = None if dets is None else tuple(det_label(d) for d in dets)
+    label = f"probs_svd(mixed input {[(st, float(Fraction(*w))) for st, w in case['members']]}, detectors {kinds}), heralds " \
+            f"{dict(heralds)}, filter {case['minph']}, precision {rel!r}" + (f", post-selection '{ps_string(ps)}'" if ps else "")
+    objs = None if dets is None else [build_det(d) for d in dets]
+    try:
+        if case.get("via") == "processor":
+            # public entry point: a lossy source produces the mixture
+            p = pcvl.Processor("SLOS", build_circuit(case["circ"]),
+                               noise=pcvl.NoiseModel(brightness=float(Fraction(*case["emission"]))))
+            for k, v in heralds:
+                p.add_herald(k, v)
+            for i, d in enumerate(dets or []):
+                if d is not None:
+                    p.add(i, objs[i])
+            if ps:
+                p.set_postselection(PostSelect(ps_string(ps)))
+            p.min_detected_photons_filter(case["minph"])
+            hmodes = {k for k, _ in heralds}
+            p.with_input(BasicState([x for i, x in enumerate(case["input"]) if i not in hmodes]))
+            out = p.probs(precision=rel)
+        else:
+            sim = Simulator(SLOSBackend())
+            sim.set_circuit(build_circuit(case["circ"]))
+            sim.set_selection(min_detected_photons_filter=case["minph"], heralds=dict(heralds),
+                              postselect=PostSelect(ps_string(ps)) if ps else None)
+            sim.keep_heralds(False)
+            sim.set_precision(rel)
+            svd = SVDistribution({BasicState(st): float(Fraction(*w)) for st, w in case["members"]})
+            out = sim.probs_svd(svd, objs)
+    except Exception as e:
+        return ("violation", "probs-svd-mixed-raises", f"{label} raised {type(e).__name__}: {e}", case)
+    got = {tuple(s): float(q) for s, q in out["results"].items()}
+    perf, logical = float(out["physical_perf"]), float(out["logical_perf"])
+    incompatible = any(det_max(d) is not None and v > det_max(d) for (k, v) in heralds for d in [(dets or [None] * m)[k]])
+    # (1) the property: mixture of the per-member laws with the members' weights (only meaningful at precision 0)
+    if rel == 0 and not incompatible:
+        s_res, s_acc, s_phys = spec_mix(members, dets, case["minph"], heralds, ps, m)
+        why = cmp_dist(got, s_res)
+        if why is None and not core.close(perf * logical, float(s_acc), 1e-8):
+            why = f"physical_perf*logical_perf = {perf * logical!r}, accepted mass of the mixture {float(s_acc)!r}"
+        if why is None and s_acc > 0 and not core.close(perf, float(s_phys), 1e-8):
+            why = f"physical_perf {perf!r}, weighted sum over the members {float(s_phys)!r}"
+        if why is not None:
+            return ("violation", "mixed-input-detector-law",
+                    f"{label}: not the mixture of the members' conditioned laws with the members' weights: {why}", case)
+    # (2) the model of the whole path
+    F = case["minph"] + sum(v for _, v in heralds)
+    minp = SHIPPED_MINP
+    maxp = max([p for p, n, _ in members if n >= F] + [Fraction(0)])
+    T = max(minp, maxp * Fraction(*rel.as_integer_ratio()))
+    if rel > 0:
+        # float comparisons too close to call? (member trimming and the thresholds inside simulate_detectors)
+        mg = Margin()
+        for p, n, _ in members:
+            mg.cmp(p, T)
+        mixd = {}
+        for p, n, base in members:
+            if n >= F and p > T:
+                for t, q in base:
+                    mixd[t] = mixd.get(t, Fraction(0)) + p * q
+        tot = sum(mixd.values())
+        if tot and dets:
+            _, _, mm, _ = asis_simulate([(t, q / tot) for t, q in mixd.items()], dets, F, T, minp)
+            mg.m = min(mg.m, mm)
+        if mg.m < 1e-7:
+            if count:
+                chk.count("mix", "ambiguous-skipped")
+            return None
+    rep = chk.lean.ask({"op": "probsmix", "m": m,
+                        "members": [{"p": core.rat(p), "n": n, "dist": [[list(t), core.rat(q)] for t, q in base]}
+                                    for p, n, base in members],
+                        "dets": None if dets is None else [lean_det(d) for d in dets], "filter": case["minph"],
+                        "minp": MINP, "rel": core.rat(rel), "heralds": [list(h) for h in heralds],
+                        "ps": [list(c) for c in (ps or [])], "keep": False})
+    if "err" in rep:
+        return ("broken", "model-vs-code", f"{label}: model (probsmix) rejects the case: {rep}", case)
+    full = {}
+    for t, q in rep["dist"]:
+        if tuple(t) in full:
+            return ("broken", "model-internal", f"{label}: model result holds the state {t} twice", case)
+        full[tuple(t)] = Fraction(q)
+    why = cmp_dist(got, full)
+    if why is None and not core.close(perf, float(Fraction(rep["perf"])), TOL):
+        why = f"physical_perf {perf!r}, model {rep['perf']}"
+    if why is None and not core.close(logical, float(Fraction(rep["logical"])), TOL):
+        why = f"logical_perf {logical!r}, model {rep['logical']}"
+    if why is not None:
+        return ("broken", "model-vs-code", f"{label} vs model of the mixed-input path (Model/C08Mix.lean): {why}", case)
+    if count:
+        chk.branch("mix-model")
+        if rep["mask"]:
+            chk.branch("mix-mask-path")
+        elif dets:
+            chk.branch("mix-imperfect-detectors")
+        if rep["kept"] < len(members):
+            chk.branch("mix-member-dropped")
+        if any(n < F for _, n, _ in members):
+            chk.branch("mix-member-below-filter")
+        if any(n == 0 for _, n, _ in members):
+            chk.branch("mix-vacuum-member")
+        if len({n for _, n, _ in members}) >= 2:
+            chk.branch("mix-photon-numbers-differ")
+        if rel > 0 and dets and spec_detection_type(dets) not in ("PNR", "Threshold"):
+            chk.branch("mix-threshold-from-precision")
+        if ps:
+            chk.branch("mix-postselect")
+        if heralds:
+            chk.branch("mix-heralds")
+        if case.get("via") == "processor":
+            chk.branch("mix-via-processor")
+    return None
+
+
+def run_mix_case(chk, case):
+    kinds = None if case["dets"] is None else tuple(det_label(d) for d in case["dets"])
+    chk.case(("mix", kinds, tuple(tuple(st) for st, _ in case["members"]), tuple(map(tuple, case["heralds"])), case["minph"],
+              tuple(case["rel"])),
+             nontrivial=len(case["members"]) >= 2 and spec_detection_type(case["dets"] or []) != "PNR",
+             sample={"circuit": case["circ"], "members": case["members"], "dets": kinds, "heralds": case["heralds"],
+                     "min_photons": case["minph"], "precision": case["rel"]})
+    r = judge_mix(chk, case, count=True)
+    if r is None:
+        return None
+
+    def fails(c):
+        try:
+            x = judge_mix(chk, c)
+        except Exception:
+            return False
+        return x is not None and x[1] == r[1]
+    cur = copy.deepcopy(case)
+    if cur.get("via") != "processor":
+        changed, budget = True, 30
+        while changed and budget > 0:
+            changed = False
+            for i in range(len(cur["members"])):
+                if len(cur["members"]) <= 1:
+                    break
+                c = copy.deepcopy(cur)
+                del c["members"][i]
+                budget -= 1
+                if fails(c):
+                    cur, changed = c, True
+                    break
+            if changed:
+                continue
+            for i, d in enumerate(cur["dets"] or []):
+                if d is not None:
+                    c = copy.deepcopy(cur)
+                    c["dets"][i] = None
+                    budget -= 1
+                    if fails(c):
+                        cur, changed = c, True
+                        break
+            if not changed and cur.get("ps"):
+                c = copy.deepcopy(cur)
+                c["ps"] = None
+                budget -= 1
+                if fails(c):
+                    cur, changed = c, True
+    return (r[0], r[1], r[2], cur)
+
+
+def mix_cases(chk):
+    rng = chk.rng
+    out = []
+    for i in range(chk.pick(45, 350)):
+        circ, inp, heralds, free, n = gen_herald_setup(rng, 1)
+        m = circ["m"]
+        if i % 3 == 0:
+            heralds = []
+        style = ["mixed", "mixed", "pnr", "mixed", "thr"][i % 5]
+        dets = gen_herald_dets(rng, m, heralds, style)
+        if style == "pnr" and rng.random() < 0.3:
+            dets = None
+        # members: the full input, the input with photons lost, sometimes the vacuum or an unrelated state
+        states = {tuple(inp)}
+        for _ in range(rng.randint(1, 3)):
+            st = list(inp)
+            for _ in range(rng.randint(1, 2)):
+                occ = [k for k, x in enumerate(st) if x > 0]
+                if occ:
+                    st[rng.choice(occ)] -= 1
+            states.add(tuple(st))
+        if rng.random() < 0.35:
+            states.add(tuple([0] * m))
+        if rng.random() < 0.3:
+            st = [0] * m
+            for _ in range(rng.randint(1, 3)):
+                st[rng.randrange(m)] += 1
+            states.add(tuple(st))
+        states = sorted(states)
+        rng.shuffle(states)
+        ws = [rng.randint(1, 9) for _ in states]
+        if rng.random() < 0.3:
+            ws[rng.randrange(len(ws))] = 1
+            ws[0] = 400
+        tot = sum(ws) if rng.random() < 0.85 else sum(ws) + 5
+        hsum = sum(v for _, v in heralds)
+        case = {"circ": circ, "members": [[list(st), [w, tot]] for st, w in zip(states, ws)], "heralds": heralds,
+                "dets": dets, "minph": rng.randint(0, max(0, n - hsum)),
+                "rel": rng.choice([[0, 1]] * 3 + [[rng.randint(1, 9), 1000], [rng.randint(1, 9), 100], [rng.randint(11, 49), 100]])}
+        if rng.random() < 0.3:
+            case["ps"] = gen_ps(rng, free, n)
+        out.append(case)
+    # Processor.probs() with a lossy source (the mixture is produced by Source)
+    for i in range(chk.pick(8, 50)):
+        circ, inp, heralds, free, n = gen_herald_setup(rng, 1)
+        m = circ["m"]
+        inp = [min(x, 1) for x in inp]
+        heralds = [[k, v] for k, v in heralds if inp[k] == v]
+        if sum(inp) == 0:
+            continue
+        dets = gen_herald_dets(rng, m, heralds, "mixed")
+        out.append({"via": "processor", "circ": circ, "input": inp, "emission": [rng.randint(3, 9), 10], "heralds": heralds,
+                    "dets": dets, "minph": rng.randint(0, max(0, sum(inp) - sum(v for _, v in heralds))),
+                    "rel": rng.choice([[0, 1], [0, 1], [rng.randint(1, 9), 100]]), "members": None})
+    return out
+
+
+def processor_members(case):
+    """the SVDistribution a lossy Source produces for the processor case -> [[state, [num, den]]]"""
+    import perceval as pcvl
+    from perceval.utils import BasicState
+    p = pcvl.Processor("SLOS", build_circuit(case["circ"]),
+                       noise=pcvl.NoiseModel(brightness=float(Fraction(*case["emission"]))))
+    for k, v in case["heralds"]:
+        p.add_herald(k, v)
+    p.min_detected_photons_filter(case["minph"])
+    hmodes = {k for k, _ in case["heralds"]}
+    p.with_input(BasicState([x for i, x in enumerate(case["input"]) if i not in hmodes]))
+    out = []
+    for sv, w in p.source_distribution.items():
+        if len(sv) != 1:
+            return None
+        bs = sv[0]
+        if getattr(bs, "has_annotations", False):
+            return None
+        num, den = float(w).as_integer_ratio()
+        out.append([list(bs), [num, den]])
+    return out
+
+
+# ------------------------------------------------------------------------------------------------
 def dispatch(chk, kind, case):
     if kind == "detect":
         return run_detect_case(chk, case)
@@ -1701,6 +2568,16 @@ def dispatch(chk, kind, case):
         return run_sample_case(chk, case)
     if kind == "procsample":
         return run_procsample_case(chk, case)
+    if kind == "simthr":
+        return run_simthr_case(chk, case)
+    if kind == "sampleminp":
+        return run_sampleminp_case(chk, case)
+    if kind == "mix":
+        if case.get("via") == "processor" and case.get("members") is None:
+            case = dict(case, members=processor_members(case))
+            if case["members"] is None:
+                return None
+        return run_mix_case(chk, case)
     raise ValueError(kind)
 
 
@@ -1769,7 +2646,17 @@ def run(chk: core.Check):
                              "detector-session", "session-one-mode-sim", "session-filter-rejects-reading",
                              "session-detect-after-filtered-sim",
                              "processor-samples-heralds", "hprocsample-frequency-test", "smp-herald-on-ppnr",
-                             "smp-herald-ppnr-bunched", "smp-herald-on-threshold"]
+                             "smp-herald-ppnr-bunched", "smp-herald-on-threshold",
+                             # prob_threshold > 0 / min_p > 0
+                             "thr-dropped", "thr-bound-checked", "thr-bound-tight", "thr-uniform-ignored",
+                             "thr-one-mode-untouched", "thr-exact-tie", "minp-changed", "minp-kernel-dropped",
+                             "minp-add-dropped", "sample-minp-guard-holds", "sample-minp-empty-kernel",
+                             "sample-minp-nothing-left", "sample-minp-frequency-test", "bs-minp-changed",
+                             "bs-minp-leaf-dropped",
+                             # mixed inputs through the detector path
+                             "mix-model", "mix-mask-path", "mix-imperfect-detectors", "mix-member-dropped",
+                             "mix-member-below-filter", "mix-vacuum-member", "mix-photon-numbers-differ",
+                             "mix-threshold-from-precision", "mix-postselect", "mix-heralds", "mix-via-processor"]
     rng = chk.rng
     for kind, case in load_corpus():
         if kind == "sim":
@@ -1818,6 +2705,9 @@ def run(chk: core.Check):
     go("sample", sample_cases(chk))
     go("procsample", procsample_cases(chk))
     go("hprocsample", hprocsample_cases(chk))
+    go("simthr", simthr_cases(chk))
+    go("sampleminp", sampleminp_cases(chk))
+    go("mix", mix_cases(chk))
     chk.exhaustive = False
     chk.extra["exhaustive_parts"] = {
         "Detector.detect": f"all 0<=max<=w<={chk.pick(8, 14)} and max=None, n<={chk.pick(10, 18)}",
